@@ -84,8 +84,9 @@ type c02Workload struct {
 type c02Rewrite struct {
 	L int    `json:"l"`
 	D int    `json:"d"`
-	N string `json:"n"`
-	S string `json:"s"`
+	N   string `json:"n"`
+	S   string `json:"s"`
+	Del bool   `json:"del"`
 }
 
 type c02Phase struct {
@@ -99,6 +100,12 @@ var c02BaseTime = time.Unix(1700000000, 0)
 func c02ApplyRewrites(root string, ph *c02Phase) error {
 	for _, rw := range ph.Rewrites {
 		p := filepath.Join(root, fmt.Sprintf("L%d", rw.L), fmt.Sprintf("D%d", rw.D), filepath.FromSlash(unhex(rw.N)))
+		if rw.Del {
+			if err := os.Remove(p); err != nil {
+				return err
+			}
+			continue
+		}
 		if err := os.WriteFile(p, []byte(unhex(rw.S)), 0o644); err != nil {
 			return err
 		}
